@@ -357,6 +357,38 @@ def run(ctx):
     if ctx.prop == "C03" and not getattr(ctx, "_sharing", False):
         from .common import share
         share(ctx, "C19", ("R19.1",), "R03.7", "env::get obligations shared with C19", 4)
+    # ---- R03.8: the variable that is looked up is the variable that was bound: env_ holds the setter's argument verbatim
+    ctx.rule("R03.8", "every write of base::env_ stores a copy-only carrier of the writing function's own parameter (or the same member of another object): variable names are case-sensitive, a normalised name is a different variable")
+    ENVF = NS + "base::env_"
+    nenv_w = 0
+    for f in prog.fns.values():
+        if not f.has_cfg or not f.file.startswith("/repo/") or f.flags.get("instantiation") and prog.fn(f.flags.get("instantiation_of") or "") is not None:
+            continue
+        for bid, i, e in f.all_elems():
+            x = e.get("expr")
+            if x is None:
+                continue
+            rhss = []
+            if e.get("kind") == "init" and e.get("field") == ENVF:
+                rhss.append(x)
+            for y in walk(x):
+                if y.get("k") in ("bin", "call") and y.get("op") == "=":
+                    l = ir.unwrap(y.get("l") if y.get("k") == "bin" else y.get("this"))
+                    if isinstance(l, dict) and l.get("k") == "member" and l.get("field") == ENVF:
+                        rhss.append(y.get("r") if y.get("k") == "bin" else (y.get("args") or [None])[0])
+            for rhs in rhss:
+                nenv_w += 1
+                r = ir.unwrap(rhs)
+                same_member = isinstance(r, dict) and any(z.get("k") == "member" and z.get("field") == ENVF for z in walk(r)) and valueflow.carrier(
+                    f, rhs, lambda n: isinstance(n, dict) and n.get("k") == "member" and n.get("field") == ENVF)[0]
+                real = [a for a in r.get("args", []) if not (isinstance(a, dict) and a.get("k") == "defarg")] if isinstance(r, dict) else [None]
+                default_empty = isinstance(r, dict) and ((r.get("k") == "construct" and (not real or (len(real) <= 2 and isinstance(ir.unwrap(real[0]), dict) and ir.unwrap(real[0]).get("k") == "lit" and ir.unwrap(real[0]).get("v") == "")))
+                                                         or (r.get("k") == "lit" and r.get("v") == ""))
+                okc, why = valueflow.carrier(f, rhs, lambda n: isinstance(n, dict) and n.get("k") == "ref" and n.get("decl", "").startswith("param:"))
+                ctx.check(okc or same_member or default_empty, "R03.8", f, "env-name-stored-verbatim@%s" % _rel(f, e),
+                          "%s stores %s as the bound variable's name (%s): the name that is looked up differs from the name that was bound (`http_proxy` is not `HTTP_PROXY`), the option silently falls back to its default"
+                          % (short(f.qual), fmt(rhs)[:80], why or "not a copy of the argument"), (f, e.get("ln")), why_ok=fmt(rhs)[:60])
+    ctx.need("R03.8", "writes of base::env_", nenv_w, 1)
     ctx.assume("process-environment races (setenv while parse runs) are outside the claim")
     ctx.assume("nothing is decided about the contents of values beyond verbatimness")
 
